@@ -552,7 +552,21 @@ impl Check for C13SelRef {
         // (set "zz" X E[/s0/ := :zz]) evaluates X once at top level and makes it visible
         // everywhere in E; /s0/ must behave the same whenever X has a value
         let as_var = Expr::call("set", vec![Expr::lit("\"zz\""), c.x.clone(), sel_to_var(&c.e, "s0", "zz")]);
-        let args = vec![select_arg(&c.x, "s0", &sp), select_arg(&c.e, "a", &sp), select_arg(&as_var, "b", &sp)];
+        // the earlier selection is called s0, or - one case in three - "0" or "2" while it
+        // stands at position 1 between two other selections (a name is a name, not a position)
+        let h = canon(&c.e).len() + canon(&c.x).len();
+        let name = ["s0", "s0", "s0", "s0", "0", "2"][h % 6];
+        let rename = |e: &Expr| -> Expr {
+            fn go(e: &Expr, to: &str) -> Expr {
+                match e {
+                    Expr::Sel(n) if n == "s0" => Expr::Sel(to.to_string()),
+                    Expr::Call { f, args } => Expr::Call { f: f.clone(), args: args.iter().map(|a| go(a, to)).collect() },
+                    other => other.clone(),
+                }
+            }
+            go(e, name)
+        };
+        let args = vec!["--select=\"decoy-a\" = da".to_string(), select_arg(&c.x, name, &sp), "--select=\"decoy-b\" = db".to_string(), select_arg(&rename(&c.e), "a", &sp), select_arg(&as_var, "b", &sp)];
         let input: Vec<u8> = c.records.join("\n").into_bytes();
         let o = run(&args, &input);
         if !o.res.is_ok() {
@@ -564,7 +578,7 @@ impl Check for C13SelRef {
         };
         let mut nt = false;
         for (i, r) in rows.iter().enumerate() {
-            if r.get("s0").is_none() {
+            if r.get(name).is_none() {
                 continue; // X is nothing: (set ..) yields nothing as a whole, /s0/ only locally
             }
             let a = r.get("a").map(|v| v.to_json());
